@@ -389,6 +389,75 @@ class Grid:
             self.record(["access", "missing-attr", canon(v)], outcome(lambda: r["o"].nope._get_value()), ("exc", "AttributeError"), False)
 
 
+def inplace_mutable_cases(counters, violations):
+    """In-place operators on a location whose OLD VALUE is a mutable object (list, numpy array, dict, set, bytearray):
+    the new value is what Python's BINARY operator gives on the old value and the operand (same exception type if that
+    raises), and neither the old value object nor the operand object is modified.  Plus: the old EXPRESSION is a bare
+    reference (a = b; a += 1): the new definition is b + 1 and follows b."""
+    import copy
+    import operator
+    import numpy as np
+    import xdeps
+    AUG = {"add": "__iadd__", "mul": "__imul__", "truediv": "__itruediv__", "sub": "__isub__", "pow": "__ipow__", "floordiv": "__ifloordiv__",
+           "lshift": "__ilshift__", "rshift": "__irshift__", "and_": "__iand__", "or_": "__ior__", "xor": "__ixor__", "mod": "__imod__", "matmul": "__imatmul__"}
+    cases = [
+        ([1, 2], [("add", [3]), ("add", (3,)), ("mul", 2), ("add", "ab")]),
+        (np.array([1, 2, 3]), [("add", 0.5), ("truediv", 2), ("mul", 2), ("mul", 1.5), ("floordiv", 2), ("pow", 2), ("pow", 0.5), ("lshift", 1), ("rshift", 1),
+                               ("and_", 1), ("or_", 4), ("xor", 1), ("mod", 2), ("sub", np.array([0.5, 0.5, 0.5])), ("add", [1, 1, 1]), ("add", np.array([1, 2]))]),
+        (np.array([1.0, 2.0]), [("add", 1), ("mul", 1j), ("truediv", 0), ("matmul", np.array([1.0, 1.0])), ("floordiv", 0.5)]),
+        (np.array(7), [("truediv", 2), ("add", 0.5)]),
+        (np.array([True, False]), [("add", 1), ("or_", True), ("mul", 2.0)]),
+        ({"a": 1}, [("or_", {"b": 2}), ("or_", [("c", 3)])]),
+        ({1, 2}, [("or_", {3}), ("sub", {1}), ("and_", {2, 9}), ("xor", {2, 5}), ("or_", [3])]),
+        (bytearray(b"ab"), [("add", b"c"), ("mul", 2), ("add", "c")]),
+    ]
+
+    def same(a, b):
+        if isinstance(a, np.ndarray) or isinstance(b, np.ndarray):
+            return isinstance(a, np.ndarray) and isinstance(b, np.ndarray) and a.dtype == b.dtype and a.shape == b.shape and \
+                bool(np.all((a == b) | ((a != a) & (b != b))))
+        return type(a) is type(b) and a == b
+    for old0, ops in cases:
+        for opname, k0 in ops:
+            old, k = copy.deepcopy(old0), copy.deepcopy(k0)
+            with np.errstate(all="ignore"):
+                try:
+                    want = ("ok", getattr(operator, opname)(copy.deepcopy(old0), copy.deepcopy(k0)))
+                except Exception as exc:
+                    want = ("exc", type(exc).__name__)
+            m = xdeps.Manager()
+            d = {"p": old}
+            r = m.ref(d, "r")
+            case = "%s %s= %r" % (type(old0).__name__ + (":" + str(old0.dtype) if isinstance(old0, np.ndarray) else ""), opname, k0)
+            counters["inplace_mutable_cases_compared"] = counters.get("inplace_mutable_cases_compared", 0) + 1
+            with np.errstate(all="ignore"):
+                try:
+                    r["p"] = getattr(r["p"], AUG[opname])(k)        # what `r['p'] op= k` does
+                    got = ("ok", d["p"])
+                except Exception as exc:
+                    got = ("exc", type(exc).__name__)
+            if got[0] != want[0] or (got[0] == "exc" and got[1] != want[1]) or (got[0] == "ok" and not same(got[1], want[1])):
+                violations.append({"what": "C04 in-place %s on a mutable old value: the library gives %s, Python's old %s operand gives %s" % (case, got, opname, want)})
+                continue
+            if not same(old, old0) and not (got[0] == "ok" and got[1] is old and False):
+                violations.append({"what": "C04 in-place %s: the OLD value object was modified: it was %r and is now %r" % (case, old0, old)})
+            elif not same(k, k0) if not isinstance(k0, (str, bytes, int, float, complex, bool)) else False:
+                violations.append({"what": "C04 in-place %s: the operand object was modified: it was %r and is now %r" % (case, k0, k)})
+    # the old expression is a bare reference
+    for opname, k, f in (("add", 1, lambda b: b + 1), ("mul", 3, lambda b: b * 3), ("pow", 2, lambda b: b ** 2), ("sub", 0.5, lambda b: b - 0.5)):
+        m = xdeps.Manager()
+        d = {"a": 0, "b": 10}
+        r = m.ref(d, "r")
+        r["a"] = r["b"]
+        r["a"] = getattr(r["a"], AUG[opname])(k)
+        first = d["a"]
+        r["b"] = 20
+        counters["inplace_mutable_cases_compared"] = counters.get("inplace_mutable_cases_compared", 0) + 1
+        if not (same(first, f(10)) and same(d["a"], f(20))):
+            violations.append({"what": "C04 a = b; a %s= %r; b = 20: a holds %r then %r, expected %r then %r (the old expression combined with the operand)" % (
+                opname, k, first, d["a"], f(10), f(20))})
+
+
 def inplace_grid(counters, digests, violations, samples, sample=None):
     """Every in-place operator x {undefined, defined} target x {literal, expression} operand."""
     I = gen.I
@@ -522,6 +591,7 @@ def run_shard(spec):
             g.reeval()
             g.ternary()
         else:
+            inplace_mutable_cases(counters, violations)
             inplace_grid(counters, digests, violations, samples)
         counters["exhaustive"] = True
     elif part == "grid-sample":
@@ -531,6 +601,7 @@ def run_shard(spec):
         g.access()
         g.reeval()
         g.ternary(sample=rng)
+        inplace_mutable_cases(counters, violations)
         inplace_grid(counters, digests, violations, samples, sample=rng)
     else:
         trees(spec, rng, counters, digests, violations, samples)
